@@ -87,6 +87,14 @@ CHECKS.update({
             "DESIGN.md §2 C08"),
 })
 
+CHECKS.update({
+    "C15": ("exploration",
+            "differential runtime check on the real printer/reader pair: S -> str(parse_content(S)) -> re-read S'; rule structure in normal form, bounded reference languages, constraint verdicts on parse trees of sampled words, generator calls and arguments",
+            "Generated specs (postfix operators on groups, nested groups, open and computed bounds, quoting/escaping of text, bytes and regex literals, bits, every constraint form) and all harvested specs.",
+            "Language equality beyond structural equality is decided on bounded word sets.",
+            "DESIGN.md §2 C15"),
+})
+
 NOT_YET = {}
 
 
